@@ -169,20 +169,22 @@ def run(ctx):
     n_raw = sum(1 for o in inv if o["kind"] in ("raw-write", "raw-read"))
     ctx.floor("R1", n_static, 4, "accesses to static mut items")
     ctx.floor("R1/raw", n_raw, 4, "raw-pointer dereferences")
-    audited_fns = {S.setter.path}
+    audited_fns = S.family(S.setter.path)          # the cut implementation: the setter and what it is split into
     for o in inv:
         b = o["body"]
         if o["kind"] in ("raw-write", "raw-read"):
             if b.path not in audited_fns:
                 ctx.ob("R1", "unaudited:%s:%s" % (b.npath, o["kind"]), False, ctx.where(b, o["line"]),
                        "raw-pointer dereference outside the audited cut implementation")
+        elif o["kind"] == "unsafe-call" and b.path in audited_fns and o.get("what") in audited_fns:
+            pass        # a call, inside the audited cut implementation, of the private unsafe helper it is split into
         elif o["kind"] in ("unsafe-call", "transmute", "asm"):
             ctx.ob("R5", "unaudited:%s:%s" % (b.npath, o.get("what", o["kind"]).split("::")[-1]), False, ctx.where(b, o["line"]),
                    "unsafe operation of an unmodelled kind (%s): nothing is known about its bounds, aliasing or lifetime"
                    % o.get("what", o["kind"]))
     ctx.ob("R1", "inventory-closed", True, "", "%d unsafe operations inventoried in %s: %s" % (
         len(inv), crates, ctx.extra["unsafe_inventory"]))
-    unsafe_fns = [b for b in prog.bodies if b.j.get("unsafe_fn")]
+    unsafe_fns = [b for b in prog.bodies if b.j.get("unsafe_fn") and not (b.path in audited_fns and not b.is_pub)]
     ctx.ob("R5", "no-unsafe-fn-declared", not unsafe_fns, ctx.where(unsafe_fns[0]) if unsafe_fns else "",
            "the crates declare no `unsafe fn` (%d bodies)" % len(prog.bodies))
     # ---- R2 statics and threads -------------------------------------------
@@ -279,7 +281,7 @@ def run(ctx):
             continue
         if b.name == "new" or "Clone" in b.path:
             continue
-        if b.path != M_.path:
+        if b.path not in S.family(M_.path):
             bad = (b, s)
     if bad is None:
         par = ("param", 4, M_.locals[4].get("name") or "")
@@ -356,7 +358,7 @@ def run(ctx):
                 for a in t["args"]:
                     if a["k"] in ("copy", "move") and not a["place"]["p"] and a["place"]["l"] in ptr_locals:
                         n_ptr += 1
-                        if not (nm.endswith("ptr::eq") or "as_ptr" in nm):
+                        if not (nm.endswith("ptr::eq") or "as_ptr" in nm or (b.path in audited_fns and nm in audited_fns)):
                             bad = (b, t["line"], "a raw node pointer is passed to %s" % nm)
     ctx.ob("R3c", "raw-pointers-stay-local", bad is None, ctx.where(bad[0], bad[1]) if bad else "",
            bad[2] if bad else "raw node pointers are only dereferenced or compared in the function that obtained them")
